@@ -1,6 +1,7 @@
 package main
 
 import (
+	"encoding/json"
 	"flag"
 	"fmt"
 	"math/big"
@@ -10,16 +11,23 @@ import (
 	"time"
 
 	sdkmath "cosmossdk.io/math"
+	dbm "github.com/cometbft/cometbft-db"
 	abci "github.com/cometbft/cometbft/abci/types"
+	cmted25519 "github.com/cometbft/cometbft/crypto/ed25519"
 	"github.com/cometbft/cometbft/libs/log"
 	tmproto "github.com/cometbft/cometbft/proto/tendermint/types"
+	tmtypes "github.com/cometbft/cometbft/types"
 	"github.com/cosmos/cosmos-sdk/client"
+	"github.com/cosmos/cosmos-sdk/crypto/keys/secp256k1"
 	sdk "github.com/cosmos/cosmos-sdk/types"
 	authtypes "github.com/cosmos/cosmos-sdk/x/auth/types"
+	banktypes "github.com/cosmos/cosmos-sdk/x/bank/types"
 	govtypes "github.com/cosmos/cosmos-sdk/x/gov/types"
 
 	"github.com/haqq-network/haqq/app"
 	evmante "github.com/haqq-network/haqq/app/ante/evm"
+	"github.com/haqq-network/haqq/utils"
+	"github.com/haqq-network/haqq/x/feemarket"
 	feemarkettypes "github.com/haqq-network/haqq/x/feemarket/types"
 )
 
@@ -42,6 +50,17 @@ import (
 //     block gas meter (out-of-gas panics recovered as baseapp.runTx does), EndBlock reads
 //     GasConsumedToLimit from it.  Commit writes the branch and commits the root multistore,
 //     which resets the transient store.
+//     Node operations between two blocks (phase idle, everything committed):
+//       restart        a new application object is opened on the same database (node start)
+//       reinit         x/feemarket ExportGenesis -> JSON -> InitGenesis on a store that was reset to
+//                      the module defaults
+//       export_import  a new application object on the database (as `haqqd export` opens one) runs
+//                      ExportAppStateAndValidators; a FRESH application on a new database runs InitChain
+//                      with the exported fee market genesis, consensus parameters and height; the
+//                      scenario continues on that application
+//     args.commit = false is the ABCI order: InitChain's writes (persistent AND transient stores) stay
+//     uncommitted until the first block commits (phase "imported"); true commits right after the
+//     initialisation, as test set-ups do.
 
 func init() { register("feemarket", feemarketMain) }
 
@@ -145,6 +164,7 @@ func fmParamsOf(p feemarkettypes.Params) fmParams {
 // fmEnv is one application whose genesis has been committed; blocks are run on branches of the
 // root multistore.
 type fmEnv struct {
+	db        dbm.DB
 	app       *app.Haqq
 	dec       evmante.GasWantedDecorator
 	txCfg     client.TxConfig
@@ -155,14 +175,86 @@ type fmEnv struct {
 	blkMaxGas string
 }
 
+// fmGenesis is the genesis app.Setup builds (default module genesis, one bonded validator, one
+// funded account) with deterministic keys; feemarketGenesis, if given, replaces the module default.
+func fmGenesis(a *app.Haqq, feemarketGenesis json.RawMessage) []byte {
+	val := tmtypes.NewValidator(cmted25519.GenPrivKeyFromSecret([]byte("hv-feemarket-validator")).PubKey(), 1)
+	valSet := tmtypes.NewValidatorSet([]*tmtypes.Validator{val})
+	priv := secp256k1.GenPrivKeyFromSecret([]byte("hv-feemarket-account"))
+	acc := authtypes.NewBaseAccount(priv.PubKey().Address().Bytes(), priv.PubKey(), 0, 0)
+	amt := sdk.TokensFromConsensusPower(app.PremintAmount, sdk.DefaultPowerReduction).Sub(sdk.DefaultPowerReduction)
+	balance := banktypes.Balance{Address: acc.GetAddress().String(), Coins: sdk.NewCoins(sdk.NewCoin(utils.BaseDenom, amt))}
+	gs := app.GenesisStateWithValSet(a, app.NewDefaultGenesisState(), valSet, []authtypes.GenesisAccount{acc}, balance)
+	if feemarketGenesis != nil {
+		gs[feemarkettypes.ModuleName] = feemarketGenesis
+	}
+	bz, err := json.Marshal(gs)
+	if err != nil {
+		panic(err)
+	}
+	return bz
+}
+
 func fmNewEnv() *fmEnv {
-	a, _ := app.Setup(false, nil, ChainID)
+	db := dbm.NewMemDB()
+	a := openApp(db)
+	a.InitChain(abci.RequestInitChain{ChainId: ChainID, Time: GenesisTime, Validators: []abci.ValidatorUpdate{},
+		ConsensusParams: app.DefaultConsensusParams, AppStateBytes: fmGenesis(a, nil)})
 	a.Commit() // flush InitChain's deliver state into the root multistore
-	f := &fmEnv{app: a, phase: "idle"}
-	f.dec = evmante.NewGasWantedDecorator(a.EvmKeeper, a.FeeMarketKeeper)
-	f.txCfg = a.GetTxConfig() // builds a whole encoding config on every call
+	f := &fmEnv{db: db, phase: "idle"}
+	f.attach(a)
 	f.view()
 	return f
+}
+
+// attach makes a the application of the scenario.
+func (f *fmEnv) attach(a *app.Haqq) {
+	f.app = a
+	f.dec = evmante.NewGasWantedDecorator(a.EvmKeeper, a.FeeMarketKeeper)
+	f.txCfg = a.GetTxConfig() // builds a whole encoding config on every call
+}
+
+// reinit: the module's exported genesis, through its JSON form, initialises the module on a store
+// that knows nothing (reset to the module defaults); on a fresh branch of the committed state.
+func (f *fmEnv) reinit() {
+	f.branch(f.height)
+	k := f.app.FeeMarketKeeper
+	cdc := f.app.AppCodec()
+	bz := cdc.MustMarshalJSON(feemarket.ExportGenesis(f.ctx, k))
+	if err := k.SetParams(f.ctx, feemarkettypes.DefaultParams()); err != nil {
+		panic(err)
+	}
+	k.SetBlockGasWanted(f.ctx, 0)
+	var gs feemarkettypes.GenesisState
+	cdc.MustUnmarshalJSON(bz, &gs)
+	feemarket.InitGenesis(f.ctx, k, gs)
+}
+
+// exportImport: export as `haqqd export` does (a new application object on the node's database),
+// InitChain of a fresh application on a new database from the exported document.
+func (f *fmEnv) exportImport(commit bool) {
+	exported, err := openApp(f.db).ExportAppStateAndValidators(false, nil, []string{feemarkettypes.ModuleName})
+	if err != nil {
+		panic(err)
+	}
+	var appState map[string]json.RawMessage
+	if err := json.Unmarshal(exported.AppState, &appState); err != nil {
+		panic(err)
+	}
+	db := dbm.NewMemDB()
+	a := openApp(db)
+	a.InitChain(abci.RequestInitChain{ChainId: ChainID, Time: GenesisTime, Validators: []abci.ValidatorUpdate{},
+		ConsensusParams: exported.ConsensusParams, AppStateBytes: fmGenesis(a, appState[feemarkettypes.ModuleName]),
+		InitialHeight: exported.Height})
+	if commit {
+		a.Commit()
+	} else {
+		// the deliver state InitChain wrote is the one the first block runs on: make it visible to
+		// the block branches without committing (the transient store is not reset)
+		a.BaseApp.NewContext(false, tmproto.Header{}).MultiStore().(sdk.CacheMultiStore).Write()
+	}
+	f.db = db
+	f.attach(a)
 }
 
 func (f *fmEnv) header(h int64) tmproto.Header {
@@ -323,6 +415,34 @@ func (f *fmEnv) step(st *fmStep) (ok bool, errs string, halt bool) {
 		return err == nil, errStr(err), false
 	case "set_max_gas":
 		f.setMaxGas(fmArgStr(st.Args, "maxGas"))
+		return true, "", false
+	case "restart":
+		e := fmRecover(func() { f.attach(openApp(f.db)) })
+		f.view()
+		return e == "", e, e != ""
+	case "reinit", "export_import":
+		commit := st.Args["commit"].(bool)
+		e := fmRecover(func() {
+			if st.Ev == "reinit" {
+				f.reinit()
+				if commit {
+					f.commit()
+				} else {
+					f.ms.Write()
+				}
+			} else {
+				f.exportImport(commit)
+			}
+		})
+		if e != "" {
+			f.view()
+			return false, e, true
+		}
+		f.phase = "imported"
+		if commit {
+			f.phase = "idle"
+		}
+		f.view()
 		return true, "", false
 	}
 	panic("unknown feemarket step " + st.Ev)
@@ -589,7 +709,7 @@ func fmRandParams(r *rand.Rand, base *big.Int) fmParams {
 
 // randomScenario runs one seeded random block sequence; steps are generated while running
 // (gas relative to the current limits) and logged with their arguments.
-func (f *fmEnv) randomScenario(r *rand.Rand, blocks int, emit func(st fmStep) bool) {
+func (f *fmEnv) randomScenario(r *rand.Rand, blocks int, nodeOps int, emit func(st fmStep) bool) {
 	for b := 1; b <= blocks; b++ {
 		if !emit(fmStep{"begin_block", M{"height": float64(b)}}) {
 			return
@@ -666,6 +786,21 @@ func (f *fmEnv) randomScenario(r *rand.Rand, blocks int, emit func(st fmStep) bo
 		if !emit(fmStep{"commit", M{"height": float64(b)}}) {
 			return
 		}
+		// node operations between blocks
+		if b < blocks && r.Intn(1000) < nodeOps {
+			var st fmStep
+			switch r.Intn(8) {
+			case 0, 1, 2:
+				st = fmStep{"restart", M{"height": float64(b)}}
+			case 3, 4, 5:
+				st = fmStep{"reinit", M{"commit": r.Intn(3) == 0}}
+			default:
+				st = fmStep{"export_import", M{"commit": r.Intn(3) == 0}}
+			}
+			if !emit(st) {
+				return
+			}
+		}
 	}
 }
 
@@ -680,6 +815,7 @@ func feemarketMain(args []string) error {
 	gridRem := fs.Int("grid-rem", 0, "see --grid-mod")
 	random := fs.Int("random", 0, "number of random block sequences")
 	blocks := fs.Int("blocks", 8, "blocks per random sequence")
+	nodeOps := fs.Int("node-ops", 250, "random sequences: per mille of block boundaries with a node operation (restart, reinit, export_import)")
 	randCalc := fs.Int("random-calc", 0, "number of random calc rows")
 	seed := fs.Int64("seed", 1, "seed")
 	out := fs.String("out", "trace.ndjson", "trace output")
@@ -794,7 +930,7 @@ func feemarketMain(args []string) error {
 		if r.Intn(3) == 0 {
 			cfg.Bgw = fmt.Sprint(r.Int63n(60000000))
 		}
-		runSeq("random", cfg, func(f *fmEnv, emit func(st fmStep) bool) { f.randomScenario(r, *blocks, emit) })
+		runSeq("random", cfg, func(f *fmEnv, emit func(st fmStep) bool) { f.randomScenario(r, *blocks, *nodeOps, emit) })
 	}
 	fmt.Printf("feemarket: scenarios=%d lines=%d calc_rows=%d calc_evaluations=%d sequences=%d\n", scn, tw.N, ncalc, nevals, nseq)
 	return nil
